@@ -302,13 +302,15 @@ def gen(env, t, name, maxlen, cache):
     if k == "map":
         n = env.choice(name + ".len", maxlen + 1)
         d = {}
-        conds = []
+        conds, kc, vc, keep = [], {}, {}, []
         for i in range(n):
             kk, c1 = gen(env, t[1], "%s.k%d" % (name, i), maxlen, cache)
             vv, c2 = gen(env, t[2], "%s.v%d" % (name, i), maxlen, cache)
+            keep += [kk, vv]
+            kc[id(kk)], vc[id(vv)] = c1, c2
             d[kk] = vv  # symbolic keys: the dict asks the solver whether two keys can be equal (fork)
-        for kk, vv in d.items():
-            conds += [_inrange(t[1], kk), _inrange(t[2], vv)]
+        for kk, vv in d.items():   # after merging of equal keys: (first key object, last value object)
+            conds += [kc[id(kk)], vc[id(vv)]]
         return d, AND(*conds) if conds else True
     if k == "enum":
         E = cache[id(t)]
@@ -1100,6 +1102,9 @@ def gen_json(env, t, name, maxlen, cache):
         return FLOATS[env.choice(name, len(FLOATS) - (0 if k == "float32" else 0))], True
     if k in ("complexfloat32", "complexfloat64"):
         return complex(FLOATS[env.choice(name + ".re", 3)], FLOATS[env.choice(name + ".im", 3)]), True
+    if k == "enum":
+        v, _ = gen(env, t, name, maxlen, cache)
+        return v, True     # JSON numbers are unbounded: the NDJSON enum converter has no integer range to enforce
     if k == "flags":
         F = cache[id(t)]
         pool = [0, t[1][0], t[1][0] | t[1][-1], 64, t[1][0] | 64]
@@ -1125,13 +1130,15 @@ def gen_json(env, t, name, maxlen, cache):
         return [v for v, _ in items], AND(*[c for _, c in items]) if items else True
     if k == "map":
         n = env.choice(name + ".len", maxlen + 1)
-        d, conds = {}, []
+        d, conds, kc, vc, keep = {}, [], {}, {}, []
         for i in range(n):
             kk, c1 = gen_json(env, t[1], "%s.k%d" % (name, i), maxlen, cache)
             vv, c2 = gen_json(env, t[2], "%s.v%d" % (name, i), maxlen, cache)
+            keep += [kk, vv]
+            kc[id(kk)], vc[id(vv)] = c1, c2
             d[kk] = vv
         for kk, vv in d.items():
-            conds += [_inrange(t[1], kk), _inrange(t[2], vv)]
+            conds += [kc[id(kk)], vc[id(vv)]]
         return d, AND(*conds) if conds else True
     return gen(env, t, name, maxlen, cache)
 
